@@ -126,6 +126,22 @@ def shrink(ck, env, args):
     return env, args
 
 
+def replay(ck, data):
+    """bin/vcheck C02 --replay <file>: re-run the single case of a replay file on both sides"""
+    ck.ocaml_build()
+    ck.harness_build(["c02"])
+    line = data["wire"]
+    m = ck.model([line])[0].split("\t")
+    i = ck.impl(["R\t%s\t%s" % (line.split("\t")[1], m[0])])[0]
+    print(json.dumps(data.get("case"), ensure_ascii=False))
+    print("written arguments: %r\nspecification:     %r\nmodel:             %r\nimplementation:    %s" % (
+        dec_list(m[0]), dec_list(m[2]), dec_list(m[1]), repr(dec_list(i[1:])) if i.startswith("A") else i))
+    print("well-formed: %s   known-finding classes: %s" % (m[3], m[5]))
+    same = i == "A" + m[2]
+    print("REPLAY: " + ("agree now" if same else "still disagree"))
+    return 0 if same else 1
+
+
 def run(ck):
     ck.gen_from_source()
     ck.coq_build(["props/C02.vo", "extract/C02_extract.vo"])
@@ -138,16 +154,6 @@ def run(ck):
     thorough = ck.tier == "thorough"
     rng = ck.rng
     fixed = {k.get("id") for k in ck.known_db if k.get("property") == "C02" and str(k.get("status", "")).startswith("fixed")}
-
-    if ck.replay:
-        rp = json.load(open(ck.replay))
-        line = rp["wire"]
-        m = ck.model([line])[0].split("\t")
-        i = ck.impl(["R\t%s\t%s" % (line.split("\t")[1], m[0])])[0]
-        print("replay: written=%s\n  spec=%s\n  model=%s\n  implementation=%s" % (dec_list(m[0]), dec_list(m[2]), dec_list(m[1]), i))
-        if i != "A" + m[2]:
-            ck.violation(rp)
-        return
 
     cases = []      # (env, args, tag)
     # ---- corpus: witnesses of findings, always first -------------------------------------------------------
@@ -201,7 +207,7 @@ def run(ck):
             cases.append(({n: v}, [S(n)], "spread-pool"))
             cases.append(({n: v, "w": "z"}, [T(("L", "a")), S(n), T(("V", "w"))], "spread-pool"))
     # spread: every value over a small alphabet (the exact boundary of C02_words)
-    sp_len = 7 if thorough else 6
+    sp_len = 8 if thorough else 6
     for k in range(1, sp_len + 1):
         for cs in itertools.product("a \"#\\", repeat=k):
             cases.append(({"v": "".join(cs)}, [S("v")], "spread-exh"))
@@ -231,7 +237,7 @@ def run(ck):
         if r < 0.8:
             return " ".join(rng.choice(VALUES) for _ in range(rng.randint(2, 4)))
         return rand_unicode(rng, rng.randint(1, 30))
-    for _ in range(150000 if thorough else 25000):
+    for _ in range(400000 if thorough else 25000):
         e = {n: rand_value() for n in NAMES if rng.random() < 0.6}
         args = []
         for _a in range(rng.randint(1, 4)):
@@ -332,7 +338,7 @@ def run(ck):
             e, a, tag = cases[k]
             f = m_out[k]
             wire, rline = lines[k], r_lines[k]
-            if route == "run_instruction" and len(ck.violations) < 2:
+            if route == "run_instruction" and len(ck.violations) < 1:
                 e2, a2 = shrink(ck, e, a)
                 if (e2, a2) != (e, a):
                     wire = enc_case(e2, a2)
